@@ -512,6 +512,20 @@ def run_symbolic(fn, repo, eager=False, cert_backends=("z3",), max_paths=MAX_PAT
             with contextlib.redirect_stdout(io.StringIO()):
                 fn(k)
             k.finish(certs if cert_backends else None)
+            if st.path and any(g["status"] == "failed" for g in k.goals):
+                # a goal failed: is this control path feasible at all?  (asked only now; a path that an earlier decision could not
+                # exclude -- solver "unknown" -- may be empty, and a goal that fails on an empty path says nothing)
+                r_feas, _m = smt.check_sat(st, [], 5000, light=True)
+                if r_feas != "unsat" and not light and smt._has_definitions(st):
+                    r_full, _m = smt.check_sat(st, [], 5000, light=False)
+                    r_feas = r_full if r_full in ("sat", "unsat") else "unknown"
+                if r_feas == "unsat":
+                    notes.append("a control path on which goals failed is infeasible (unsat): dropped")
+                    work.extend(st.work)
+                    continue
+                for g in k.goals:
+                    if g["status"] == "failed":
+                        g["path_feasible"] = r_feas
             if certs and cert_backends:
                 cc = smt.check_certificates(st, certs, cert_backends)
                 rec["cert_check"] = {"n": len(certs), "results": {b: v for b, v in cc.items() if not b.startswith("_")}}
